@@ -71,6 +71,22 @@ def opts_extra(tier, seed):
                 else:      # a well formed option
                     b.extend(r.choice([[1], [2, 4, 5, 6], [3, 3, 9], [4, 2], [8, 10] + [7] * 8, [5, 10] + [3] * 8, [5, 18] + [3] * 16]))
             out.append({'kind': 'raw', 'bytes': b[:ln], 'elems': []})
+    # lists far beyond the 40 byte limit: the required size that is reported must stay the true sum where narrow counters would wrap or
+    # saturate (around 2^8 with every element kind, around 2^16 with the large ones)
+    one = {1: [1, []], 2: [2, [5, 180]], 3: [3, [7]], 4: [4, []], 8: [8, [1, 2, 3, 4, 5, 6, 7, 8]], 5: [5, list(range(32))]}
+    size = {1: 1, 2: 4, 3: 3, 4: 2, 8: 10, 5: 34}
+    targets = [250, 254, 255, 256, 257, 260, 300, 511, 512, 513] + ([65530, 65535, 65536, 65540] if tier != 'quick' else [65536])
+    for kind in (1, 2, 3, 4, 8, 5):
+        for t in targets:
+            if t > 1000 and kind not in (5, 8):
+                continue
+            k = t // size[kind]
+            for extra in ((0, 1) if t <= 1000 else (0,)):
+                lst = [one[kind]] * (k + extra)
+                fill = t - size[kind] * k
+                if fill and not extra:
+                    lst = lst + [one[1]] * fill            # NOPs up to exactly the target size
+                out.append({'kind': 'elems', 'bytes': [], 'elems': lst})
     return out
 
 
